@@ -201,7 +201,9 @@ def sliding_window_view(arr, window_shape, step, dilation=None):
     step = np.array(step)  # (Sx, ..., Sz)
     window_shape = np.array(window_shape)  # (Wx, ..., Wz)
     in_shape = np.array(arr.shape[-len(step) :])  # (x, ... , z)
-    nbyte = arr.strides[-1]  # size, in bytes, of element in `arr`
+    # size, in bytes, of element in `arr` (not `arr.strides[-1]`: a trailing axis
+    # of length 1 can carry any stride - e.g. 0 for `a[..., None]`)
+    nbyte = arr.itemsize
 
     # per-byte strides required to fill a window
     win_stride = tuple(np.cumprod(arr.shape[:0:-1])[::-1]) + (1,)
